@@ -215,6 +215,15 @@ func (e *engine) callSites(f *ssa.Function) map[ssa.Instruction]string {
 				c = x.Common()
 			case *ssa.Go:
 				c = x.Common()
+			case *ssa.Send:
+				cnt["send"]++
+				m[in] = fmt.Sprintf("send#%d", cnt["send"])
+			case *ssa.Select:
+				cnt["select"]++
+				m[in] = fmt.Sprintf("select#%d", cnt["select"])
+			case *ssa.MapUpdate:
+				cnt["mapupdate"]++
+				m[in] = fmt.Sprintf("mapupdate#%d", cnt["mapupdate"])
 			}
 			if c == nil {
 				continue
@@ -373,6 +382,8 @@ func (v *vc) atReturn(fr *frame, st *state, vals []string, k int) {
 	v.cover(st, site, "true")
 	se := v.newSpecEnv(fr, st, nil)
 	se.setResults(fr.fn.Signature, vals)
+	// parameters keep their entry values in postconditions; other locals mean their value at this return
+	se.localsAt = v.retBlock
 	for _, e := range fc.ensures {
 		t := se.evalGoal(e.expr)
 		v.oblige(st, "ensures", e.label, site, t, e.props)
